@@ -123,10 +123,47 @@ def replay(ob, contract, seed=0):
     if ob.kind == "unwind":
         ok = outcome[0] == "timeout"
         return dict(confirmed=ok, input=inp, text="real call %s within 5 s" % ("did NOT finish" if ok else "finished: %r" % (outcome,)))
+    def independent():
+        """With the inputs fixed to the replayed values, can the clause still hold under SOME interpretation of the
+        uninterpreted library functions?  If so the model owes its existence to one particular interpretation (e.g. of
+        str.isdecimal on a term the code never computes) and the input is not a witness.  -> None (cannot tell: a
+        non-scalar input), True (no interpretation saves the clause), False"""
+        eqs = []
+        for pname, v in env.items():
+            if pname in ("self", "cls"):
+                continue
+            if not isinstance(v, Sym):
+                if isinstance(v, (bool, int, str, bytes)) or v is None:
+                    continue
+                return None
+            a = args[pname]
+            if v.kind == "int" and isinstance(a, int) and not isinstance(a, bool):
+                eqs.append(tm.Eq(v.term, tm.Int(a)))
+            elif v.kind == "bool" and isinstance(a, bool):
+                eqs.append(tm.Eq(v.term, tm.Bool(a)))
+            elif v.kind == "str" and isinstance(a, str):
+                eqs.append(tm.Eq(v.term, tm.Str(a)))
+            elif v.kind == "bytes" and isinstance(a, bytes):
+                eqs.append(tm.Eq(v.term, tm.BytesLit(a)))
+            else:
+                return None
+        r2 = solve.z3_check(list(ob.pc) + eqs + [ob.goal], 10000, want_model=False, seed=seed)
+        return r2.verdict == "unsat"
+
+    def qualified(ok, text):
+        if ok:
+            ind = independent()
+            if ind is False:
+                return dict(confirmed=None, input=inp, text=text + " - the real code follows the verifier's path, BUT with this input the "
+                            "clause can still hold under another interpretation of the uninterpreted library functions: not counted as a replayed counterexample")
+            if ind is None:
+                text += " (agreement of path and outcome; the clause itself is not re-evaluated natively for non-scalar inputs)"
+        return dict(confirmed=ok, input=inp, text=text)
+
     predicted_exc = ob.exc_class
     if predicted_exc is not None:
         ok = outcome[0] == "raised" and outcome[1] == predicted_exc
-        return dict(confirmed=ok, input=inp, text="verifier's path raises %s; the real call %s" % (predicted_exc, outcome,))
+        return qualified(ok, "verifier's path raises %s; the real call %s" % (predicted_exc, outcome,))
     pv = ob.result_value
     if pv is not None and pv[0] == "value":
         try:
@@ -137,8 +174,7 @@ def replay(ob, contract, seed=0):
         if name == "__init__" and outcome[0] == "returned":
             got = None          # a constructor "returns" the new instance; the path's result is None
         same = outcome[0] == "returned" and (got == want or (isinstance(got, tuple) and isinstance(want, tuple) and tuple(got) == tuple(want)))
-        return dict(confirmed=bool(same), input=inp,
-                    text="verifier's path returns %r; the real call %s" % (want, "returned %r" % (got,) if outcome[0] == "returned" else outcome))
+        return qualified(bool(same), "verifier's path returns %r; the real call %s" % (want, "returned %r" % (got,) if outcome[0] == "returned" else outcome))
     return dict(confirmed=None, input=inp, text="real call: %r (no prediction recorded for this kind of obligation)" % (outcome,))
 
 
